@@ -517,7 +517,7 @@ Lemma avx_stage_ok : forall options iflags avx has_mem op0m ops,
   test iflags IF_Evex = true ->
   (test options OPT_ZMask = true -> test avx AF_Z = true /\ op0m = false) ->
   (test options (N.lor OPT_SAE OPT_ER) = true ->
-     has_mem = false /\ (test options OPT_ER = true -> test avx AF_ER = true) /\ (test options OPT_ER = false -> test avx AF_SAE = true) /\
+     has_mem = false /\ (test options OPT_ER = true -> test avx AF_ER = true) /\ (test options OPT_ER = false -> test avx AF_SAE = true /\ test avx AF_ER = false) /\
      (test avx (N.lor AF_B16 (N.lor AF_B32 AF_B64)) = true -> is_zmm_or_m512 (nth 0 ops ONone) || is_zmm_or_m512 (nth 1 ops ONone) = true)) ->
   avx_stage options iflags avx has_mem op0m ops = E_Ok.
 Proof.
@@ -532,7 +532,7 @@ Proof.
       destruct (test avx (N.lor AF_B16 (N.lor AF_B32 AF_B64))) eqn:TB; [|reflexivity].
       specialize (R4 eq_refl). apply orb_true_iff in R4. destruct R4 as [R4|R4]; rewrite R4; cbn; try reflexivity.
       destruct (is_zmm_or_m512 (nth 0 ops ONone)); reflexivity.
-    + rewrite (R3 eq_refl). cbn [negb andb].
+    + destruct (R3 eq_refl) as [R3a R3b]. rewrite R3a, R3b. cbn [negb andb orb].
       destruct (test avx (N.lor AF_B16 (N.lor AF_B32 AF_B64))) eqn:TB; [|reflexivity].
       specialize (R4 eq_refl). apply orb_true_iff in R4. destruct R4 as [R4|R4]; rewrite R4; cbn; try reflexivity.
       destruct (is_zmm_or_m512 (nth 0 ops ONone)); reflexivity.
@@ -544,7 +544,7 @@ Proof.
       destruct (test avx (N.lor AF_B16 (N.lor AF_B32 AF_B64))) eqn:TB; [|reflexivity].
       specialize (R4 eq_refl). apply orb_true_iff in R4. destruct R4 as [R4|R4]; rewrite R4; cbn; try reflexivity.
       destruct (is_zmm_or_m512 (nth 0 ops ONone)); reflexivity.
-    + rewrite (R3 eq_refl). cbn [negb andb].
+    + destruct (R3 eq_refl) as [R3a R3b]. rewrite R3a, R3b. cbn [negb andb orb].
       destruct (test avx (N.lor AF_B16 (N.lor AF_B32 AF_B64))) eqn:TB; [|reflexivity].
       specialize (R4 eq_refl). apply orb_true_iff in R4. destruct R4 as [R4|R4]; rewrite R4; cbn; try reflexivity.
       destruct (is_zmm_or_m512 (nth 0 ops ONone)); reflexivity.
@@ -601,4 +601,32 @@ Proof.
   destruct x64; cbn [mode_bit] in M.
   - rewrite M in R2. apply rep_validates; auto.
   - rewrite M in R1. apply rep_validates; auto.
+Qed.
+
+(* ------------------------------------------------------------------ decorated rows: the representative operands validate under the decoration's instruction word *)
+Lemma rep_decor_validates : forall T zq x64 row o et ei,
+  forallb (sig_wf T) (vt_isig T) = true ->
+  test (dr_mode row) (mode_bit x64) = true -> rep_decor_premises T x64 (row, o, et, ei) = true ->
+  validate T zq x64 false {| vi_id := dr_inst row; vi_options := o; vi_extra_type := et; vi_extra_id := ei |} (rep_ops x64 row) = E_Ok.
+Proof.
+  intros T zq x64 row o et ei WF M R. unfold rep_decor_premises in R.
+  destruct (nth (N.to_nat (dr_inst row)) (vt_inst T) (0, 0, 0, 0)) as [[[iflags avx] sidx] scnt] eqn:ROW.
+  apply andb_true_iff in R. destruct R as [P R].
+  destruct (xlat_all T x64 false avx (rep_ops x64 row) init_xstate) as [e|[st rest]] eqn:X; [discriminate|].
+  repeat (apply andb_true_iff in R; let H := fresh "S" in destruct R as [R H]).
+  repeat match goal with H : (_ =? E_Ok) = true |- _ => apply N.eqb_eq in H end.
+  eapply (db_row_validates T zq x64 false row _ (rep_ops x64 row) iflags avx sidx scnt st rest WF P); eauto.
+Qed.
+
+Lemma rep_decor_validates_both : forall T zq dr,
+  forallb (sig_wf T) (vt_isig T) = true -> rep_decor_premises_both T dr = true ->
+  forall x64, test (dr_mode (fst (fst (fst dr)))) (mode_bit x64) = true ->
+  validate T zq x64 false {| vi_id := dr_inst (fst (fst (fst dr))); vi_options := snd (fst (fst dr)); vi_extra_type := snd (fst dr); vi_extra_id := snd dr |}
+           (rep_ops x64 (fst (fst (fst dr)))) = E_Ok.
+Proof.
+  intros T zq [[[row o] et] ei] WF R x64 M. cbn [fst snd] in *. unfold rep_decor_premises_both in R. cbn [fst] in R.
+  apply andb_true_iff in R. destruct R as [R1 R2].
+  destruct x64; cbn [mode_bit] in M.
+  - rewrite M in R2. apply rep_decor_validates; auto.
+  - rewrite M in R1. apply rep_decor_validates; auto.
 Qed.
